@@ -41,8 +41,8 @@ type Rule struct {
 	Name        string
 	Doc         string
 	Run         func(c *Ctx)
-	NeedControl bool // the rule must report at least one violation on the injected control code
-	FamilyShape bool // recognises one coding pattern: absence is not an alarm, no floor
+	NeedControl bool     // the rule must report at least one violation on the injected control code
+	FamilyShape bool     // recognises one coding pattern: absence is not an alarm, no floor
 	ExtraScope  []string // packages armed for this rule in addition to the property's scope
 }
 
